@@ -321,6 +321,103 @@ func runC16(r *vk.Run) {
 		c.Nontrivial("malformed")
 		c.Sample("malformed", map[string]any{"times": badTimes, "durations": badDur, "steps": badStep})
 	})
+	// end to end: flags of the built plugin -> what the fake daemon is asked for (no wall clock: --end always explicit and in the past)
+	r.Phase("e2e", r.N(30, 400), func(c *vk.Case) {
+		rng := c.Rng
+		inv := []CSpec{{ID: "id0", Name: "/c0", Image: "img", State: "running"}}
+		for j := 0; j < 8; j++ {
+			inv[0].Frames = append(inv[0].Frames, Frame{Type: 1, TS: int64(1700000000+j) * 1e9, Body: fmt.Sprintf("line-%d", j)})
+		}
+		d, err := startFakeDaemon(inv, false)
+		if err != nil {
+			c.R.Inconclusive("fake daemon: " + err.Error())
+			return
+		}
+		defer d.Close()
+		endT := time.Unix(1600000000+rng.I64n(100000000), int64(rng.Intn(1000))*1e6)
+		if rng.Bool() {
+			endT = endT.Truncate(time.Second) // whole seconds: until must then be exactly that second
+		}
+		endSp := vk.Pick(rng, spellInstant(rng, endT))
+		args := []string{`{container="c0"}`, "--end", endSp.Text, "--color=false"}
+		wantStart := endT.Add(-6 * time.Hour)
+		mode := "default-since"
+		switch rng.Intn(3) {
+		case 0:
+			st := endT.Add(-time.Duration(rng.I64n(int64(100 * time.Hour)))).Truncate(time.Millisecond)
+			ssp := vk.Pick(rng, spellInstant(rng, st))
+			args = append(args, "--start", ssp.Text)
+			wantStart = st
+			mode = "explicit-start/" + ssp.Kind
+		case 1:
+			txt := vk.Pick(rng, []string{"1h", "30m", "2d", "90s", "1h30m"})
+			sd, _ := promDur(txt)
+			args = append(args, "--since", txt)
+			wantStart = endT.Add(-sd)
+			mode = "since"
+		}
+		limit := -1
+		if rng.Bool() {
+			limit = rng.Range(1, 10)
+			args = append(args, "--limit", fmt.Sprint(limit))
+		}
+		badStep := ""
+		if rng.Chance(1, 4) {
+			badStep = vk.Pick(rng, []string{"0", "-5", "inf", "NaN", "0s", "abc", "1h1h"})
+			args = append(args, "--step", badStep)
+		} else if rng.Bool() {
+			args = append(args, "--step", vk.Pick(rng, []string{"15", "1m", "0.5", "2h"}))
+		}
+		pr, err := runPlugin(d, 60*time.Second, args...)
+		c.Eval(1)
+		if err != nil {
+			c.R.Inconclusive("cannot run plugin binary: " + err.Error())
+			return
+		}
+		det := map[string]any{"args": args, "stdout": string(pr.Stdout), "stderr": string(pr.Stderr), "exit": pr.Exit, "requests": d.requests(), "mode": mode}
+		if pr.TimedOut {
+			c.Fail("", fmt.Sprintf("plugin did not finish within 60s for %v", args), det)
+			return
+		}
+		if badStep != "" {
+			if pr.Exit == 0 {
+				c.Fail("", fmt.Sprintf("plugin accepted --step %q", badStep), det)
+			}
+			c.Count("e2e_bad_step_rejected", 1)
+			return
+		}
+		if pr.Exit != 0 {
+			c.Fail("", fmt.Sprintf("plugin failed for valid flags %v: %s", args, trunc(string(pr.Stderr), 300)), det)
+			return
+		}
+		reqs := d.requests()
+		if len(reqs) != 1 {
+			c.Fail("", fmt.Sprintf("expected one logs request, daemon saw %d", len(reqs)), det)
+			return
+		}
+		ws, wul, wuh := floorDivSec(wantStart.UnixNano()), floorDivSec(endT.UnixNano()), ceilDivSec(endT.UnixNano())
+		if reqs[0].Since != fmt.Sprint(ws) {
+			c.Fail("", fmt.Sprintf("[%s] daemon asked since=%s, flags resolve start to %s (=%d s)", mode, reqs[0].Since, wantStart.UTC().Format(time.RFC3339Nano), ws), det)
+			return
+		}
+		if reqs[0].Until != fmt.Sprint(wul) && reqs[0].Until != fmt.Sprint(wuh) {
+			c.Fail("", fmt.Sprintf("[%s/%s] daemon asked until=%s, --end %s is %d..%d s", mode, endSp.Kind, reqs[0].Until, endSp.Text, wul, wuh), det)
+			return
+		}
+		lines := strings.Count(string(pr.Stdout), "\n")
+		wantLines := 8
+		if limit > 0 && limit < 8 {
+			wantLines = limit
+		}
+		if lines != wantLines {
+			c.Fail("", fmt.Sprintf("--limit %d: %d lines printed, expected %d", limit, lines, wantLines), det)
+			return
+		}
+		c.Count("e2e_runs", 1)
+		c.Seen("e2e_modes", mode)
+		c.Nontrivial(fmt.Sprintf("e2e%d", c.Idx))
+	})
+	r.Require("e2e_runs", 12)
 	r.Require("distinct:flag_subsets", 16)
 	r.Require("distinct:spellings", 6)
 	r.Require("millisecond_values", 6000)
